@@ -165,12 +165,11 @@ Print Assumptions gc_complete.
 (* NOT PROVED YET (see docs/areas/Sched-proofs.md):
    the empty-invocation part of Spec.c06_dump; the monitor-state versions (m_syncs, m_live) of these statements. *)
 
-(* ---- the monitor's retry bookkeeping (e_retry, position 14 of p_step) rejects a model trace ----
-   rw_evs (ProofsMonW.v): retry count 0, one size class; a worker is told to run a task, reports a failure, the learner
-   asks for the retry and the same Synchronize call is handed the task again.  The model resets the task's retry counter
-   at every assignment; the monitor's m_reissue keeps counting as long as the operation set is the same. *)
-Example retry_monitor_rejects_model_trace :
-  (selectors_in_range (init rw_cfg 0) rw_evs /\ fresh_calls [] rw_evs /\ bg_scripts_ok rw_evs /\ learner_ids_unique rw_evs /\ causes_ok rw_evs) /\
-  trace_ok rw_cfg 0 (model_trace rw_cfg 0 rw_evs) = false /\
-  trace_sub [0;1;2;3;4;5;6;7;8;9;10;11;12;13;15;16;17;18]%nat rw_cfg 0 (model_trace rw_cfg 0 rw_evs) = true.
-Proof. exact (conj rw_hypotheses (conj (proj1 rw_rejected) rw_others_accept)). Qed.
+(* ---- regression: the monitor's retry bookkeeping (positions 14 and 15 of p_step) on a re-assignment to the same worker ----
+   rw_evs, rw_evs2 (ProofsMonW.v): retry count 0, one size class; a worker is told to run a task, reports a failure, the
+   learner asks for the retry and the same Synchronize call is handed the task again (then the worker asks once more).
+   An earlier p_step counted the second DExec as a re-issue; it now clears m_reissue[w] on an accepted completion report. *)
+Example retry_monitor_accepts_reassignment :
+  (selectors_in_range (init rw_cfg 0) rw_evs2 /\ fresh_calls [] rw_evs2 /\ bg_scripts_ok rw_evs2 /\ learner_ids_unique rw_evs2 /\ causes_ok rw_evs2) /\
+  trace_ok rw_cfg 0 (model_trace rw_cfg 0 rw_evs) = true /\ trace_ok rw_cfg 0 (model_trace rw_cfg 0 rw_evs2) = true.
+Proof. exact (conj rw2_hypotheses (conj rw_accepted rw2_accepted)). Qed.
